@@ -321,7 +321,13 @@ shared_ptr<IDataArray> BlockHDF5::createDataArray(const std::string &name,
     auto da = make_shared<DataArrayHDF5>(file(), block(), group, id, type, name);
 
     // now create the actual H5::DataSet
-    da->createData(data_type, shape, compression == Compression::Auto ? compr : compression);
+    try {
+        da->createData(data_type, shape, compression == Compression::Auto ? compr : compression);
+    } catch (...) {
+        // do not leave an array without data behind (unsupported data type, invalid shape)
+        g->removeAllLinks(name);
+        throw;
+    }
     return da;
 }
 
@@ -339,7 +345,13 @@ std::shared_ptr<IDataFrame> BlockHDF5::createDataFrame(const std::string &name,
     H5Group group = g->openGroup(name, true);
 
     auto df = make_shared<DataFrameHDF5>(file(), block(), group, id, type, name);
-    df->createData(cols, compression == Compression::Auto ? compr : compression);
+    try {
+        df->createData(cols, compression == Compression::Auto ? compr : compression);
+    } catch (...) {
+        // do not leave a frame without data behind (no or unsupported columns)
+        g->removeAllLinks(name);
+        throw;
+    }
     return df;
 }
 
@@ -354,7 +366,13 @@ shared_ptr<IMultiTag> BlockHDF5::createMultiTag(const std::string &name, const s
     boost::optional<H5Group> g = multi_tag_group(true);
 
     H5Group group = g->openGroup(name);
-    return make_shared<MultiTagHDF5>(file(), block(), group, id, type, name, positions);
+    try {
+        return make_shared<MultiTagHDF5>(file(), block(), group, id, type, name, positions);
+    } catch (...) {
+        // do not leave a multi tag without positions behind (positions not in this block)
+        g->removeAllLinks(name);
+        throw;
+    }
 }
 
 //--------------------------------------------------
